@@ -90,8 +90,8 @@ BUILT = set(CHECKS)
 
 # workload extensions made after the seeding rounds (appended to the level text)
 EXTRA = {
- "C01": " Also: a pool-history shard (each judged record logged right after a record of 100 B..1 MiB went through the handlers' shared buffer pool), handler thresholds other than Debug (a record below the threshold must leave no byte), json.RawMessage values (compact, pretty-printed, garbage), and a separately built probe program (/verif/srcprobe: slash-less module path, main package at the module root; built with -trimpath, with -trimpath from file arguments, and plainly) whose records - including the two written by Fatal / Fatalf before the process ends - must name the runtime's file and line of the call site.",
- "C13": " Also: a pool-history shard (each judged record logged right after a record of 100 B..1 MiB went through the handlers' shared buffer pool), handler thresholds other than Debug, json.RawMessage values, and the separately built probe program of C01 (file names with one slash, a ./ prefix, absolute; Fatal / Fatalf) judged for the source token.",
+ "C01": " Also: a pool-history shard (each judged record logged right after a record of 100 B..1 MiB went through the handlers' shared buffer pool), handler thresholds other than Debug (a record below the threshold must leave no byte), json.RawMessage values (compact, pretty-printed, garbage), and a separately built probe program (/verif/srcprobe: slash-less module path, main package at the module root; built with -trimpath, with -trimpath from file arguments, and plainly) whose records - including the two written by Fatal / Fatalf before the process ends - must name the runtime's file and line of the call site. Marshaler / RawMessage outputs include well-formed documents with bytes that are not UTF-8 inside strings (the line must stay UTF-8, each such byte read back as U+FFFD); values whose MarshalText / Error method panics on a good receiver.",
+ "C13": " Also: a pool-history shard (each judged record logged right after a record of 100 B..1 MiB went through the handlers' shared buffer pool), handler thresholds other than Debug, json.RawMessage values, and the separately built probe program of C01 (file names with one slash, a ./ prefix, absolute; Fatal / Fatalf) judged for the source token. Values whose MarshalText / Error method panics on a good receiver (struct value, non-nil pointer).",
  "C02": " Records go through every Logger entry point (Log, level methods, LogAttrs, f-methods) and thresholds between the named levels are used; values that the JSON handler hands to encoding/json (floats, structs, maps) are logged concurrently; single-goroutine specials: a LogValuer that logs through the same logger family while the outer record is formatted (a blocked handler mutex is told from a goroutine dump), and a destination whose Write panics once (later records must still be written). Panic / Panicf and calls made with an already cancelled context are entry points too.",
  "C03": " The With-vs-call-site comparison is strict (empty groups included) and covers raw argument lists: every list of up to 4 (thorough 5) arguments over strings (incl. empty and dangling), stray values, Attrs, (empty, nested, inline) groups, LogValuers and AnsiString, With(args...).Log(m,z) byte-equal to Log(m,args...,z) on all three handlers, at the root and under a WithGroup, with addSource on and off; one sweep order lets a sibling write a line beyond the pooled-buffer limit. Another sweep order derives a child right after a line of exactly the pooled-buffer limit.",
  "C04": " A refused registration (Handle panics, the caller recovers) stays in the history: the table of successfully registered routes, and so every dispatch, must be what it was.",
@@ -102,12 +102,12 @@ EXTRA = {
  "C09": " History cases: structs pre-filled with garbage of every type before NewFlagSet, reload (NewFlagSet+Parse twice on one struct value), a failing Parse followed by another Parse on the same FlagSet; the usage flag among the arguments; 87 hand-written field-name -> env-name pairs exercising every branch of the snake-casing; integer text also in Go-literal spellings (0x, 0o, 0b, leading-0 octal, _).",
  "C10": " Also: a second Parse call on an already parsed FlagSet (must not change Args(), fields, ShowUsage()), tag names with upper-case letters, and the FromCommandLine entry point driven through os.Args. A Parse that failed is retried on the same FlagSet; argument names one character away from a declared flag must be refused.",
  "C11": " FirstIP/LastIP of the same package are called between the operations; a twin filter instance receives the history shifted into another address space in 1/8 (exhaustive) / 1/3 (random) of the sequences; an edge universe (network address 0.0.0.0, top of the address space) is swept to length 3; invalid forms include ::/0, a nil mask and a 16-byte zero mask; every probe is repeated as the tail of a genuine IPv6 address, which only 0.0.0.0/0 covers. Drained filters (everything that was added is deleted again, then probed and refilled) are part of the history families.",
- "C12": " In every second trial and every fourth switch round witness filter instances (one long-lived in map mode, fresh ones crossing their own switch again and again) work in the same process and must answer by their own history only; in those trials the writers also feed networks that are not IPv4 CIDRs and require ErrInvalidIPv4CIDR. Lookups made inside the toggler's own match-all interval are judged against that interval.",
+ "C12": " In every second trial and every fourth switch round witness filter instances (one long-lived in map mode, fresh ones crossing their own switch again and again) work in the same process and must answer by their own history only; in those trials the writers also feed networks that are not IPv4 CIDRs and require ErrInvalidIPv4CIDR. Lookups made inside the toggler's own match-all interval are judged against that interval. Lookups are made in 4-byte, 16-byte and genuine IPv6 form; 128.0.0.0/1 is one of the stable ranges; never-covered probes include the bottom of the address space.",
  "C15": " Handler behaviours also include W.Flush()/FlushError() on the untouched response and the Store's own helpers (Respond200, RespondJson, Redirect, Error404, Error500, a wrapped http.HandlerFunc); request lines of 17-46 KiB; raw non-ASCII bytes in the path (recorder path); panic values also: an error held by value whose Error method panics, a uint64 above MaxInt64, a string beginning with byte 0x80. A handler may write without ever flushing (the writer's buffered bytes are flushed by the server).",
  "C17": " Quick also sweeps every byte (first / last / in the middle of climbing paths) and the trivial paths against unclean bases; for a dot-free path the result must equal filepath.Join(base, path) exactly.",
- "C18": " Also: source-side aliasing (the source path is a symlink, a chain of symlinks, a ./-spelling or a hard link; the destination is the real file, another link to it, or an intermediate link of the source's own chain), sizes 2 MiB+1 / 4 MiB+3 / 8 MiB+1, and concurrent calls on distinct files in quick.",
+ "C18": " Also: source-side aliasing (the source path is a symlink, a chain of symlinks, a ./-spelling or a hard link; the destination is the real file, another link to it, or an intermediate link of the source's own chain), sizes 2 MiB+1 / 4 MiB+3 / 8 MiB+1, and concurrent calls on distinct files in quick. After a nil return of MoveFile the source path must be gone unless the destination is another name of the source.",
  "C19": " Data also reaches the writer the way callers send it (io.Copy / CopyN / CopyBuffer, WriteTo, io.WriteString, fmt.Fprintf, bufio.Writer) over wrapped writers with and without ReadFrom / WriteString, scripted and OS-backed (temp file, /dev/null, /dev/full, broken pipe); Status() is probed after Close() has returned. Wrapped writers that also implement Close (succeeding, failing, already closed, slow) are used; the Status() judgements are unchanged by them.",
- "C20": " Also: slow-daemon cases (the handler waits before Done() at a gate only the supervisor opens; a Launch that has returned while it is closed is the violation), daemons that use their standard descriptors after Done(), handler names at the edges (\"\", blanks, '=', 200 bytes, prefixes of each other), launches from inside a daemon, and callers started through a relative path, PATH lookup or a symlink. Ordinary pre-Done actions of a daemon (cleaning its environment, chdir, closing inherited descriptors, setsid) and handler names with path or list separators are exercised.",
+ "C20": " Also: slow-daemon cases (the handler waits before Done() at a gate only the supervisor opens; a Launch that has returned while it is closed is the violation), daemons that use their standard descriptors after Done(), handler names at the edges (\"\", blanks, '=', 200 bytes, prefixes of each other), launches from inside a daemon, and callers started through a relative path, PATH lookup or a symlink. Ordinary pre-Done actions of a daemon (cleaning its environment, chdir, closing inherited descriptors, setsid) and handler names with path or list separators are exercised. Short-lived daemons (the handler ends right after Done(), naturally, behind the pause hook, or after freezing its launcher with SIGSTOP so that signal and exit are both pending when the supervisor resumes it): Launch must still return nil and the handler's pid. daemon.Run() returning true in a process that nobody re-executed is reported (run-true-in-plain-process).",
 }
 
 ALL = ["C%02d" % i for i in range(1, 21)]
